@@ -3,6 +3,7 @@ package props
 import (
 	"errors"
 	"fmt"
+	"strings"
 	"sync/atomic"
 
 	"github.com/willabides/rjson"
@@ -235,7 +236,7 @@ func c08(r *eng.Run) {
 		eng.Corruptions(corr[i], corruptAlpha, func(s string) { run(s, "corruption") })
 	})
 	// a few larger documents with bounded deviations
-	for _, t := range []string{`{"a":[1,{"b":"x","c":[true,null]}],"d":{"e":{"f":[]}}}`, `[[1,2],[3,[4,[5,"six"]]],{"a":{}}]`, ` { "k" : [ 1e2 , "` + "\\" + `"" ] , "` + U("006b") + `" : null } x`} {
+	for _, t := range []string{`{"k":` + strings.Repeat("[", 20) + `1` + strings.Repeat("]", 20) + `,"z":2}`, `[` + strings.Repeat(`{"a":`, 18) + `"x"` + strings.Repeat("}", 18) + `,[1]]`, `{"a":[1,{"b":"x","c":[true,null]}],"d":{"e":{"f":[]}}}`, `[[1,2],[3,[4,[5,"six"]]],{"a":{}}]`, ` { "k" : [ 1e2 , "` + "\\" + `"" ] , "` + U("006b") + `" : null } x`} {
 		run(t, "large")
 	}
 	r.Set("evaluations", int(execs))
